@@ -34,7 +34,12 @@ def hll_key_for(idx, rank, p, seed, salt=0):
         rest = 0
     else:
         top = 1 << (nbits - rank)  # leading one after rank-1 zeros
-        rest = top | (salt % top if top > 1 else 0)
+        if salt == "ones":  # every bit below the leading one set (just under the next power of two)
+            rest = top | (top - 1)
+        elif salt == "ones0":  # all ones except the lowest bit
+            rest = (top | (top - 1)) & ~1 if top > 1 else top
+        else:
+            rest = top | (salt % top if top > 1 else 0)
     h = (rest << p) | idx
     return refhash.preimage8(h, seed)
 
